@@ -5,7 +5,8 @@
 (* from the image saved after any completed sub-iteration (new object or the used one), set_up  *)
 (* and run the used object again.                                                               *)
 (*   Variant = "doc": all invariants must hold.                                                 *)
-(*   Variant = "stale_den" | "relative_index" | "relative_subset" | "no_prior_term": TLC must   *)
+(*   Variant = "stale_den" | "relative_index" | "relative_subset" | "no_prior_term" |           *)
+(*   "refill_on_resume": TLC must                                                               *)
 (*   refute an invariant (the runner checks that it does: the model has not lost its bite).     *)
 EXTENDS OSSPS, TLC
 CONSTANTS Variant, MaxLives, Rich
@@ -16,9 +17,15 @@ ToySys ==
     bins |-> << << 0, 0, 0, 0, 0 >>, << 0, 0, 0, 1, 0 >>, << 0, 1, 0, 0, 0 >>, << 0, 1, 0, 1, 0 >> >>,
     rows |-> << << << 1, 1 >>, << 2, 2 >> >>, << << 1, 2 >> >>, << << 2, 1 >> >>, << << 1, 1 >>, << 2, 1 >> >> >>,
     cols |-> << << << 1, 1 >>, << 2, 2 >>, << 4, 1 >> >>, << << 1, 2 >>, << 3, 1 >>, << 4, 1 >> >> >> ]
+(* the same geometry, but no bin sees voxel 2 (zero sensitivity: only a prior can move it) *)
+HoleSys ==
+  [ ToySys EXCEPT !.id = 2,
+    !.rows = << << << 1, 1 >> >>, << << 1, 2 >> >>, << << 1, 1 >> >>, << << 1, 1 >> >> >>,
+    !.cols = << << << 1, 1 >>, << 2, 2 >>, << 3, 1 >>, << 4, 1 >> >>, << >> >> ]
+SysFor(cc) == IF cc.hole THEN HoleSys ELSE ToySys
 KL == 8                     \* images in units 2^-8
 (* data: y = 2 (P 1) (so the denominator is exact), additive term 1; "consistent" data y = P t + a for t = <<1, 2>> *)
-ToyYq(kind) == IF kind = "consistent" THEN << 24, 12, 12, 16 >> ELSE << 24, 16, 8, 16 >>
+ToyYq(cc) == IF cc.hole THEN << 8, 16, 8, 8 >> ELSE IF cc.data = "consistent" THEN << 24, 12, 12, 16 >> ELSE << 24, 16, 8, 16 >>
 ToyA == << 1, 1, 1, 1 >>
 ToyPrior(c) == IF c.prior THEN MakePrior(<< 1, 1, 2 >>, [i \in 1..27 |-> IF i \in {13, 15} THEN 1 ELSE 0], << >>, c.beta) ELSE << >>
 
@@ -28,30 +35,32 @@ Inits == IF Rich THEN { << 256, 512 >>, << 0, 640 >>, << 300, 77 >>, << 1, 1 >>,
 Configs ==
   { c \in [N : {1, 2}, startSubset : {0, 1}, aN : {1, 2, 3}, aK : {0, 1, 2}, gN : {0, 1, 3}, gK : {0, 1}, uInf : BOOLEAN,
            uN : IF Rich THEN {5, 3} ELSE {5}, uK : {1},
-           prior : BOOLEAN, dep : BOOLEAN, beta : {0, 2}, data : {"plain", "consistent"}, init : Inits] :
+           prior : BOOLEAN, dep : BOOLEAN, beta : {0, 2}, data : {"plain", "consistent"}, hole : BOOLEAN, init : Inits] :
       /\ c.startSubset < c.N
       /\ << c.aN, c.aK >> \in Alphas /\ << c.gN, c.gK >> \in Gammas
       /\ (c.prior <=> c.beta = 2) /\ (c.dep => c.prior) /\ (c.uInf => c.uN = 5)
-      /\ (c.data = "consistent" => (~c.prior /\ c.init = << 256, 512 >>)) }
+      /\ (c.data = "consistent" => (~c.prior /\ c.init = << 256, 512 >>))
+      /\ (c.hole => (c.data = "plain" /\ << c.aN, c.aK >> = << 1, 0 >> /\ c.init \in { << 256, 512 >>, << 300, 77 >> })) }
 K(c) == 3 * c.N
 
 VARIABLES c, o, lam, hist, phase, lives, lastStep
 vars == << c, o, lam, hist, phase, lives, lastStep >>
 
 (* ---- one sub-iteration of the law in fixed point (gradient by floor division) *)
-XOf(cc, im) == [lam |-> im, yq |-> ToyYq(cc.data), a |-> ToyA, N |-> cc.N, zero |-> FALSE, maxSeg |-> 0]
-DFx(im, b) == RowDot(ToySys.rows[b], im) + ToyA[b] * 2^KL                       \* P lambda + a, units 2^-KL
+XOf(cc, im) == [lam |-> im, yq |-> ToyYq(cc), a |-> ToyA, N |-> cc.N, zero |-> FALSE, maxSeg |-> 0]
+DFx(cc, im, b) == RowDot(SysFor(cc).rows[b], im) + ToyA[b] * 2^KL               \* P lambda + a, units 2^-KL
 UsedAll == [b \in 1..4 |-> TRUE]
 GradLLFx(cc, im, s, v) ==                                                       \* units 1/16
   LET X == XOf(cc, im)
       m == [used |-> UsedAll]
-      g(b) == (4 * X.yq[b] * 2^KL) \div DFx(im, b) - 16
-  IN Back(ToySys, X, m, g, s, v)
+      g(b) == (4 * X.yq[b] * 2^KL) \div DFx(cc, im, b) - 16
+  IN Back(SysFor(cc), X, m, g, s, v)
 NGradFx(cc, im, s, v) == cc.N * GradLLFx(cc, im, s, v) - PriorGrad(ToyPrior(cc), im, v) \div 16
 DenFx(cc, terms, v) ==                                                          \* units 2^-HK, with `terms' penalty terms in it
   LET X == XOf(cc, << 1, 1 >>)
-      m == XMemo(ToySys, X)
-  IN XDenData(ToySys, X, m, v) + terms * 2 * 1024 * PriorCurv(ToyPrior(cc), v)
+      m == XMemo(SysFor(cc), X)
+  IN XDenData(SysFor(cc), X, m, v) + terms * 2 * 1024 * PriorCurv(ToyPrior(cc), v)
+ZeroSens(cc, v) == Len(SysFor(cc).cols[v]) = 0
 
 Init ==
   /\ c \in Configs /\ o = FreshObject /\ lam = c.init /\ hist = << >> /\ phase = "new" /\ lives = 0 /\ lastStep = << >>
@@ -67,12 +76,14 @@ SubIter ==
          n == IndexUsed(c, o, Variant)
          s == SubsetUsed(c, o, Variant)
          terms == PenaltyTermsUsed(c, o, Variant)
-         ng == [v \in 1..2 |-> NGradFx(c, lam, s, v)]
+         zs(v) == ZeroSens(c, v)
+         est == IF FillApplies(k, o.start, Variant) THEN FillNonIdentifiable(lam, zs) ELSE lam
+         ng == [v \in 1..2 |-> NGradFx(c, est, s, v)]
          D == [v \in 1..2 |-> DenFx(c, terms, v)]
-         new == [v \in 1..2 |-> StepValue(c, n, lam[v], ng[v], D[v], KL, GK, HK)]
+         new == [v \in 1..2 |-> IF D[v] > 0 THEN StepValue(c, n, est[v], ng[v], D[v], KL, GK, HK) ELSE ClampU(c, est[v], KL)]
      IN /\ lam' = new
         /\ hist' = IF k \in DOMAIN hist THEN hist ELSE (k :> new) @@ hist
-        /\ lastStep' = [k |-> k, n |-> n, sub |-> s, terms |-> terms, D |-> D, ng |-> ng, from |-> lam,
+        /\ lastStep' = [k |-> k, n |-> n, sub |-> s, terms |-> terms, D |-> D, ng |-> ng, from |-> est,
                         match |-> (k \in DOMAIN hist => new = hist[k])]
         /\ o' = ObjStep(c, o, Variant)
         /\ phase' = IF k = o.last THEN "done" ELSE phase
@@ -107,7 +118,7 @@ UFx == UpperFx(c, KL)
 InvBounds == lastStep # << >> => \A v \in 1..2 : lam[v] >= 0 /\ (c.uInf \/ lam[v] <= UFx)
 \* "D the strictly positive precomputed curvature (minus the approximate Hessian applied to a uniform image, plus twice
 \*  the prior's surrogate curvature)": every sub-iteration divides by exactly that
-InvDenominator == lastStep # << >> => (DenominatorIsDefinition(c, lastStep.terms) /\ \A v \in 1..2 : lastStep.D[v] > 0)
+InvDenominator == lastStep # << >> => (DenominatorIsDefinition(c, lastStep.terms) /\ \A v \in 1..2 : (lastStep.D[v] > 0 \/ (ZeroSens(c, v) /\ ~c.prior)))
 \* "zeta_n = alpha / (1 + gamma n) the relaxation for full iteration n" (n as the code computes it), subset of the schedule
 InvSchedule == lastStep # << >> => (lastStep.n = RelaxationIndex(lastStep.k, c.N) /\ lastStep.sub = SubsetOf(c, lastStep.k))
 \* "resuming from a saved iterate reproduces the uninterrupted run" (also on a used object, also after set_up + run again)
